@@ -82,10 +82,13 @@ class C19Model(QsModel):
         if conn in self.polls and rpc == "qinfo":
             cid, writer = self.polls[conn]
             snaps = self.poll_snaps.setdefault(conn, [])
-            want = f"{cid}:render-{writer}" if not snaps else f"{cid}:makezip"
-            j = self.jobs.get(want)
-            snaps.append({"asked": args.get("jobid"), "expected_id": want,
-                          "snap": copy.deepcopy(self.snapshot(j)) if j is not None else None})
+            # the real state of THAT writer's render job and of the fetch job at this instant,
+            # whatever id the code asked for
+            jr = self.jobs.get(f"{cid}:render-{writer}")
+            jz = self.jobs.get(f"{cid}:makezip")
+            snaps.append({"asked": args.get("jobid"),
+                          "render": copy.deepcopy(self.snapshot(jr)) if jr is not None else None,
+                          "fetch": copy.deepcopy(self.snapshot(jz)) if jz is not None else None})
 
 
     def on_resp(self, conn, rpc, args, payload, now):
@@ -323,8 +326,26 @@ class C19Run(qsrun.QsRun):
             raise Violation("S-fields", f"{what} echoes collection/writer {out.get('collection_id')!r}/{out.get('writer')!r}")
         if not snaps:
             raise Violation("S-state", f"{what} answered {out['state']!r} without asking the queue")
-        s1 = snaps[0]["snap"]
-        s2 = snaps[1]["snap"] if len(snaps) > 1 else None
+        # A poll asks the queue once, twice or more; the answer must be faithful to the render
+        # job's real state at ONE of those instants (and, for the fetch progress, to the fetch
+        # job's state at one of them).  The first instant gives the message if none fits.
+        first = None
+        for k in range(len(snaps)):
+            for m_ in range(len(snaps)):
+                if len(snaps) > 1 and m_ == k:
+                    continue
+                bad = self._judge(what, out, snaps[k]["render"], snaps[m_]["fetch"] if len(snaps) > 1 else None,
+                                  len(snaps) > 1, writer, cid, count=(first is None))
+                if bad is None:
+                    return
+                if first is None:
+                    first = bad
+        raise first
+
+    def _judge(self, what, out, s1, s2, asked_twice, writer, cid, count=False):
+        """None if `out` is a faithful answer for render-job state s1 (and fetch-job state s2),
+        else the Violation."""
+        model = self.model
         state = out["state"]
         if s1 is not None and s1["done"] and s1["error"]:
             exp = "failed"
@@ -332,44 +353,49 @@ class C19Run(qsrun.QsRun):
             exp = "finished"
         else:
             exp = "progress"
-        key = f"{exp}"
-        self.poll_stats[key] = self.poll_stats.get(key, 0) + 1
+        if count:
+            self.poll_stats[exp] = self.poll_stats.get(exp, 0) + 1
         if state != exp:
             cls = {"finished": "S-finished", "failed": "S-failed"}.get(state, "S-state")
+            extra = ""
             if state == "finished":
                 others = [w for w in WRITERS if w != writer and
                           (model.jobs.get(f"{cid}:render-{w}") is not None and model.jobs[f"{cid}:render-{w}"].state == "d")]
                 extra = f" (other finished writers of this collection: {others})" if others else ""
-            else:
-                extra = ""
-            raise Violation(cls, f"{what} reports {state!r} but the render job was "
-                            f"{self._describe(s1)} when the queue answered{extra}",
-                            detail={"got": state, "expected": exp})
+            return Violation(cls, f"{what} reports {state!r} but the render job was "
+                             f"{self._describe(s1)} when the queue answered{extra}",
+                             detail={"got": state, "expected": exp})
         if exp == "failed":
             if out.get("error") != s1["error"]:
-                raise Violation("S-failed", f"{what} failed with error {out.get('error')!r}, job error is {s1['error']!r}")
-            return
+                return Violation("S-failed", f"{what} failed with error {out.get('error')!r}, job error is {s1['error']!r}")
+            return None
         if exp == "finished":
-            self.check_finished(what, out, s1, writer)
-            return
+            try:
+                self.check_finished(what, out, s1, writer)
+            except Violation as v:
+                return v
+            return None
         # progress
         if s1 is not None and s1["info"]:
             exp_status = s1["info"]
-            self.poll_stats["progress-render-info"] = self.poll_stats.get("progress-render-info", 0) + 1
+            if count:
+                self.poll_stats["progress-render-info"] = self.poll_stats.get("progress-render-info", 0) + 1
         else:
-            if len(snaps) < 2:
-                raise Violation("S-progress", f"{what}: render job has no progress of its own but the fetch job was not asked")
+            if not asked_twice:
+                return Violation("S-progress", f"{what}: render job has no progress of its own but the fetch job was not asked")
             if s2 is not None and s2["done"]:
                 # fetching is over and rendering has no progress of its own yet: what exactly is
                 # shown then is not fixed by the property
-                self.poll_stats["progress-fetched"] = self.poll_stats.get("progress-fetched", 0) + 1
-                return
-            else:
-                exp_status = s2["info"] if s2 is not None else {}
+                if count:
+                    self.poll_stats["progress-fetched"] = self.poll_stats.get("progress-fetched", 0) + 1
+                return None
+            exp_status = s2["info"] if s2 is not None else {}
+            if count:
                 self.poll_stats["progress-fetch-info"] = self.poll_stats.get("progress-fetch-info", 0) + 1
         if out.get("status") != exp_status:
-            raise Violation("S-progress", f"{what} shows progress {out.get('status')!r}, expected {exp_status!r} "
-                            f"(render job {self._describe(s1)}, fetch job {self._describe(s2)})")
+            return Violation("S-progress", f"{what} shows progress {out.get('status')!r}, expected {exp_status!r} "
+                             f"(render job {self._describe(s1)}, fetch job {self._describe(s2)})")
+        return None
 
     @staticmethod
     def _describe(s):
